@@ -54,6 +54,12 @@ impl Engine for C09 {
             "remove_fully / clear follow their documented multi-step behaviour (DESIGN.md 4.2): full removal of a key whose content file is already gone is an error that changes nothing".into(),
         ]
     }
+    fn exhaustive(&self, tier: Tier) -> Vec<Program> {
+        neighbour_family(tier)
+    }
+    fn exhaustive_note(&self, _tier: Tier) -> String {
+        "fixed family (not exhaustive): values whose digests share the first byte, and the first two bytes, of their hex address (same content sub-directories), under SHA-256 and SHA-1; every removal kind applied to one of them in both flavours".into()
+    }
     fn random_cases(&self, tier: Tier) -> u32 {
         tier.pick(1500, 40000)
     }
@@ -121,4 +127,78 @@ impl Engine for C09 {
         }
         Ok(())
     }
+}
+
+/// Values whose content files are directory neighbours: b0/b1 share the first digest byte
+/// (same `<aa>` directory, different `<bb>`), b0/b2 share the first two (same `<aa>/<bb>`).
+fn neighbours(algo: crate::blob::Algo) -> Vec<crate::blob::Blob> {
+    use crate::blob::{digest_raw, Blob};
+    let base = Blob::new(6, 1);
+    let d0 = digest_raw(algo, &base.bytes());
+    let mut same1 = None;
+    let mut same2 = None;
+    let mut salt = 2u64;
+    while same1.is_none() || same2.is_none() {
+        let b = Blob::new(6, salt);
+        let d = digest_raw(algo, &b.bytes());
+        if d[0] == d0[0] && d[1] != d0[1] && same1.is_none() {
+            same1 = Some(b.clone());
+        }
+        if d[0] == d0[0] && d[1] == d0[1] && same2.is_none() {
+            same2 = Some(b);
+        }
+        salt += 1;
+        if salt > 3_000_000 {
+            break;
+        }
+    }
+    let mut v = vec![base];
+    v.extend(same1);
+    v.extend(same2);
+    v.push(Blob::new(9, 7_000_001));
+    v
+}
+
+fn neighbour_family(_tier: Tier) -> Vec<Program> {
+    use crate::blob::Algo;
+    let mut out = Vec::new();
+    for algo in [Algo::Sha256, Algo::Sha1] {
+        let blobs = neighbours(algo);
+        let n = blobs.len();
+        let keys: Vec<String> = (0..n).map(|i| format!("n{i}")).collect();
+        let write_all = |fl0: usize| -> Vec<Step> {
+            (0..n)
+                .map(|i| {
+                    let mut w = WriteSpec::simple(Some(i), i);
+                    w.entry = WEntry::OneShotAlgo;
+                    w.algo = algo;
+                    Step { op: Op::Write(w), fl: if (i + fl0) % 2 == 0 { Fl::Sync } else { Fl::Async } }
+                })
+                .collect()
+        };
+        for victim in 0..n {
+            for (vi, fl) in [Fl::Sync, Fl::Async].into_iter().enumerate() {
+                for kind in 0..3 {
+                    let mut steps = write_all(vi);
+                    let a = AddrRef { algo, blob: victim };
+                    steps.push(Step {
+                        op: match kind {
+                            0 => Op::RemoveHash { addr: a },
+                            1 => Op::RemoveOpts { key: victim, fully: true },
+                            _ => Op::Remove { key: victim },
+                        },
+                        fl,
+                    });
+                    // and the victim can be stored again afterwards
+                    let mut w = WriteSpec::simple(Some(victim), victim);
+                    w.entry = WEntry::OneShotAlgo;
+                    w.algo = algo;
+                    steps.push(Step { op: Op::Write(w), fl });
+                    steps.push(Step { op: Op::RemoveHash { addr: AddrRef { algo, blob: (victim + 1) % n } }, fl });
+                    out.push(Program { keys: keys.clone(), blobs: blobs.clone(), steps });
+                }
+            }
+        }
+    }
+    out
 }
